@@ -315,7 +315,8 @@ def _run(tier, res, force_search=False):
         import fcntl
 
         mods = ["IbicusModel.Props.C06Inst", "IbicusModel.Props.C06", "IbicusModel.Lemmas.C06Stats", "IbicusModel.Lemmas.C06Rank",
-                "IbicusModel.Lemmas.C06Years", "IbicusModel.Lemmas.C06Except", "IbicusModel.Lemmas.C06Isimip"]
+                "IbicusModel.Lemmas.C06Years", "IbicusModel.Lemmas.C06Except", "IbicusModel.Lemmas.C06Isimip",
+                "IbicusModel.Lemmas.C06Months", "IbicusModel.Lemmas.C06Detrend"]
         with open(C.LOCK, "w") as lk:
             fcntl.flock(lk, fcntl.LOCK_SH)
             rc, log = C._run(["lake", "env", "leanchecker"] + mods)
